@@ -1,11 +1,11 @@
 #!/bin/bash
-# matrix_parallel.sh [N]: run the seed x check matrix with N workers, each on its own scratch worktree of /repo and its own
+# matrix_parallel.sh [N [seed ids...]]: run the seed x check matrix with N workers, each on its own scratch worktree of /repo and its own
 # output directory, from a snapshot of /verif (so that /verif can be edited meanwhile).  Results go to /verif/seeded/*/meta.json.
 N=${1:-3}
 SNAP=/root/scratch/snap
 rm -rf $SNAP; mkdir -p $SNAP
 rsync -a --exclude out --exclude .git /verif/ $SNAP/
-ids=($(ls /verif/seeded | sort))
+if [ $# -gt 1 ]; then shift; ids=("$@"); else ids=($(ls /verif/seeded | sort)); fi
 for i in $(seq 0 $((N-1))); do
   mine=()
   for j in "${!ids[@]}"; do [ $((j % N)) -eq $i ] && mine+=("${ids[$j]}"); done
